@@ -75,6 +75,11 @@ pub mod hooks {
     }
 }
 
+/// the text `Metrics::collect` produces for this core (what `GET /metrics` answers)
+pub fn metrics_text(core: &Core) -> String {
+    core.verif_context().metrics.verif_collect()
+}
+
 pub fn is_global_ip(ip: IpAddr) -> bool {
     net_utils::is_global_ip(&ip)
 }
@@ -1423,6 +1428,202 @@ pub mod vtunnel {
         tokio::select! {
             _ = &mut tunnel => client_task.await.unwrap_or_default(),
             r = &mut client_task => r.unwrap_or_default(),
+        }
+    }
+}
+
+// ---------------------------------------------------------------------------------------
+// UDP multiplexer (C07): the real `udp_pipe::DuplexPipe` wired to the real direct
+// forwarder multiplexer, with mirror source/sink on the client side
+
+pub mod vudp {
+    use crate::core::Core;
+    use crate::{datagram_pipe, downstream, forwarder, log_utils, udp_pipe};
+    use async_trait::async_trait;
+    use bytes::Bytes;
+    use std::io;
+    use std::net::SocketAddr;
+    use std::sync::atomic::{AtomicBool, AtomicU64, Ordering};
+    use std::sync::{Arc, Mutex};
+    use std::time::Duration;
+    use tokio::sync::mpsc;
+
+    #[derive(Debug, Clone, PartialEq, Eq)]
+    pub struct VDatagram {
+        pub source: SocketAddr,
+        pub destination: SocketAddr,
+        pub payload: Vec<u8>,
+    }
+
+    struct MirrorSource {
+        rx: mpsc::UnboundedReceiver<VDatagram>,
+        /// set when `read` found nothing to deliver: everything handed out before was
+        /// processed by the (sequential) left pipe
+        idle: Arc<AtomicBool>,
+    }
+
+    #[async_trait]
+    impl datagram_pipe::Source for MirrorSource {
+        type Output = downstream::UdpDatagram;
+
+        fn id(&self) -> log_utils::IdChain<u64> {
+            log_utils::IdChain::empty()
+        }
+
+        async fn read(&mut self) -> io::Result<downstream::UdpDatagram> {
+            let idle = self.idle.clone();
+            let rx = &mut self.rx;
+            let x = futures::future::poll_fn(move |cx| {
+                let r = rx.poll_recv(cx);
+                if r.is_pending() {
+                    idle.store(true, Ordering::SeqCst);
+                }
+                r
+            })
+            .await;
+            match x {
+                Some(d) => Ok(downstream::UdpDatagram {
+                    meta: downstream::UdpDatagramMeta {
+                        source: d.source,
+                        destination: d.destination,
+                        app_name: None,
+                    },
+                    payload: Bytes::from(d.payload),
+                }),
+                None => Err(io::Error::from(io::ErrorKind::UnexpectedEof)),
+            }
+        }
+    }
+
+    struct MirrorSink {
+        out: Arc<Mutex<Vec<VDatagram>>>,
+    }
+
+    #[async_trait]
+    impl datagram_pipe::Sink for MirrorSink {
+        type Input = forwarder::UdpDatagram;
+
+        async fn write(&mut self, d: forwarder::UdpDatagram) -> io::Result<datagram_pipe::SendStatus> {
+            self.out.lock().unwrap().push(VDatagram {
+                source: d.meta.source,
+                destination: d.meta.destination,
+                payload: d.payload.to_vec(),
+            });
+            Ok(datagram_pipe::SendStatus::Sent)
+        }
+    }
+
+    pub struct Mux {
+        tx: Option<mpsc::UnboundedSender<VDatagram>>,
+        idle: Arc<AtomicBool>,
+        out: Arc<Mutex<Vec<VDatagram>>>,
+        flows: Box<dyn Fn() -> usize + Send + Sync>,
+        relayed: Arc<(AtomicU64, AtomicU64)>,
+        gauge: Box<dyn Fn() -> i64 + Send + Sync>,
+        task: tokio::task::JoinHandle<io::Result<()>>,
+    }
+
+    /// `udp_pipe::DuplexPipe` over the multiplexer `Core::make_forwarder` gives (the direct
+    /// forwarder unless the settings say otherwise), running as its own task
+    pub fn spawn(core: &Core, timeout: Duration) -> io::Result<Mux> {
+        use crate::datagram_pipe::DuplexPipe as _;
+        let fwd = core.verif_make_forwarder();
+        let (shared, fsource, fsink) = fwd.make_udp_datagram_multiplexer(
+            log_utils::IdChain::empty(),
+            forwarder::UdpMultiplexerMeta {
+                client_address: [198, 51, 100, 7].into(),
+                auth: None,
+                tls_domain: String::new(),
+                user_agent: None,
+            },
+        )?;
+        let (tx, rx) = mpsc::unbounded_channel();
+        let idle = Arc::new(AtomicBool::new(false));
+        let out = Arc::new(Mutex::new(vec![]));
+        let relayed = Arc::new((AtomicU64::new(0), AtomicU64::new(0)));
+        let mut pipe = udp_pipe::DuplexPipe::new(
+            (
+                Box::new(MirrorSource { rx, idle: idle.clone() }),
+                Box::new(MirrorSink { out: out.clone() }),
+            ),
+            (shared, fsource, fsink),
+            {
+                let relayed = relayed.clone();
+                move |dir, n| match dir {
+                    crate::pipe::SimplexDirection::Outgoing => {
+                        relayed.0.fetch_add(n as u64, Ordering::SeqCst);
+                    }
+                    crate::pipe::SimplexDirection::Incoming => {
+                        relayed.1.fetch_add(n as u64, Ordering::SeqCst);
+                    }
+                }
+            },
+            timeout,
+        );
+        let flows = pipe.verif_flow_probe();
+        let metrics = core.verif_context().metrics.clone();
+        let task = tokio::spawn(async move { pipe.exchange().await });
+        Ok(Mux {
+            tx: Some(tx),
+            idle,
+            out,
+            flows,
+            relayed,
+            gauge: Box::new(move || metrics.verif_outbound_udp_sockets()),
+            task,
+        })
+    }
+
+    impl Mux {
+        /// hand a client datagram to the pipe
+        pub fn send(&self, d: VDatagram) -> bool {
+            self.idle.store(false, Ordering::SeqCst);
+            self.tx.as_ref().map(|t| t.send(d).is_ok()).unwrap_or(false)
+        }
+
+        /// the left pipe has processed everything sent so far and waits for more
+        pub fn left_idle(&self) -> bool {
+            self.idle.load(Ordering::SeqCst)
+        }
+
+        /// datagrams the pipe delivered to the client since the last call
+        pub fn take_delivered(&self) -> Vec<VDatagram> {
+            std::mem::take(&mut *self.out.lock().unwrap())
+        }
+
+        pub fn delivered_len(&self) -> usize {
+            self.out.lock().unwrap().len()
+        }
+
+        /// size of the pipe's flow table
+        pub fn flows(&self) -> usize {
+            (self.flows)()
+        }
+
+        /// `outbound_udp_sockets` of the core's metrics
+        pub fn gauge(&self) -> i64 {
+            (self.gauge)()
+        }
+
+        /// payload bytes reported through `update_metrics` (client -> peer, peer -> client)
+        pub fn relayed(&self) -> (u64, u64) {
+            (self.relayed.0.load(Ordering::SeqCst), self.relayed.1.load(Ordering::SeqCst))
+        }
+
+        /// `exchange()` has returned
+        pub fn finished(&self) -> bool {
+            self.task.is_finished()
+        }
+
+        /// the client goes away: the source ends, `exchange()` returns
+        pub async fn close(mut self) -> String {
+            self.tx = None;
+            match tokio::time::timeout(Duration::from_secs(3600), &mut self.task).await {
+                Ok(Ok(Ok(()))) => "ok".into(),
+                Ok(Ok(Err(e))) => format!("err:{:?}", e.kind()),
+                Ok(Err(_)) => "panic".into(),
+                Err(_) => "hang".into(),
+            }
         }
     }
 }
